@@ -10,7 +10,6 @@ package verifrt
 import (
 	"cmp"
 	"iter"
-	"math/rand"
 	"sort"
 	"time"
 )
@@ -237,26 +236,6 @@ func NewTicker(d time.Duration) *time.Ticker {
 	return time.NewTicker(d)
 }
 func AfterFunc(d time.Duration, f func()) *time.Timer { return time.AfterFunc(0, f) }
-
-// ---------------------------------------------------------------- randomness
-
-type simSource struct{ r rand.Source }
-
-func (s *simSource) Int63() int64    { return s.r.Int63() }
-func (s *simSource) Seed(seed int64) { s.r.Seed(seed) }
-func (s *simSource) reseed(seed int64) {
-	s.r = rand.NewSource(seed)
-}
-
-var globalSrc *simSource
-
-// NewRandSource replaces rand.NewSource(time.Now().UnixNano()) in
-// internal/strings: the source is re-seeded from the run seed by Install.
-func NewRandSource(seed int64) rand.Source {
-	s := &simSource{r: rand.NewSource(42)}
-	globalSrc = s
-	return s
-}
 
 // ---------------------------------------------------------------- map order
 
